@@ -80,12 +80,9 @@ func NewPebbleScanner(dbPath string, opts PebbleScannerOptions) (*PebbleScanner,
 	// 1. Path Sanitization
 	// We prevent the engine from initializing in sensitive system roots.
 	// This captures cases where a misconfigured env var points the DB to /etc or /root.
-	absPath, err := filepath.EvalSymlinks(dbPath)
+	absPath, err := resolveDBLocation(dbPath)
 	if err != nil {
-		if !os.IsNotExist(err) {
-			return nil, fmt.Errorf("failed to resolve absolute path for db: %w", err)
-		}
-		absPath, _ = filepath.Abs(dbPath)
+		return nil, fmt.Errorf("failed to resolve absolute path for db: %w", err)
 	}
 	// Restricts database operations to non critical directories.
 	// Initializing a database in system roots could allow an attacker
@@ -93,7 +90,7 @@ func NewPebbleScanner(dbPath string, opts PebbleScannerOptions) (*PebbleScanner,
 	if runtime.GOOS == "linux" {
 		sensitivePrefixes := []string{"/etc", "/root", "/usr", "/bin", "/sbin", "/boot"}
 		for _, sp := range sensitivePrefixes {
-			if strings.HasPrefix(absPath, sp) {
+			if insideDir(absPath, sp) {
 				return nil, fmt.Errorf("security violation: refusing to initialize database in system directory %q", absPath)
 			}
 		}
@@ -175,6 +172,41 @@ func NewPebbleScanner(dbPath string, opts PebbleScannerOptions) (*PebbleScanner,
 	}
 
 	return scanner, nil
+}
+
+// resolveDBLocation returns the absolute, symlink-free location that dbPath denotes.
+// Path components that do not exist yet cannot be symlinks, so the deepest existing
+// ancestor is resolved and the missing remainder is appended to it.
+func resolveDBLocation(dbPath string) (string, error) {
+	abs, err := filepath.Abs(dbPath)
+	if err != nil {
+		return "", err
+	}
+	cur, rest := abs, ""
+	for {
+		resolved, err := filepath.EvalSymlinks(cur)
+		if err == nil {
+			return filepath.Join(resolved, rest), nil
+		}
+		if !os.IsNotExist(err) {
+			return "", err
+		}
+		if _, lerr := os.Lstat(cur); lerr == nil {
+			// cur exists but does not resolve: a dangling symlink whose target we cannot vet.
+			return "", fmt.Errorf("dangling symlink in database path: %s", cur)
+		}
+		parent := filepath.Dir(cur)
+		if parent == cur {
+			return "", fmt.Errorf("no existing ancestor for database path %s", abs)
+		}
+		rest = filepath.Join(filepath.Base(cur), rest)
+		cur = parent
+	}
+}
+
+// insideDir reports whether path is dir itself or lies beneath it (on path-component boundaries).
+func insideDir(path, dir string) bool {
+	return path == dir || strings.HasPrefix(path, dir+string(filepath.Separator))
 }
 
 func (s *PebbleScanner) Close() error {
